@@ -118,11 +118,13 @@ def run_shard(spec, tier, seed):
         for k in range(len(steps) + 1):
             run_case(res, {'scenario': spec['name'], 'kind': spec['kind'], 'point': [k, 0],
                            'recv': spec['recv']})
-        if spec['kind'] == 'stop':
-            # also in the middle of a burst (bytes of an incomplete PDU buffered)
+        if spec['kind'] in ('stop', 'silence'):
+            # also in the middle of a burst (bytes of an incomplete PDU buffered): for the stop
+            # request a stride of the offsets, for silence a stride (quick) or all of them
+            stride = 1 if (spec['kind'] == 'silence' and tier == 'thorough') else 17
             for point in fault_points(steps):
-                if point[1] and point[1] % 17 == 3:
-                    run_case(res, {'scenario': spec['name'], 'kind': 'stop', 'point': point,
+                if point[1] and point[1] % stride == 3 % stride:
+                    run_case(res, {'scenario': spec['name'], 'kind': spec['kind'], 'point': point,
                                    'recv': spec['recv']})
     return res
 
